@@ -44,6 +44,10 @@ pub enum DirtyKind {
     /// untracked files named exactly like the live tags and branches (a revision argument that is
     /// also a path is ambiguous for git unless the caller separates them with `--`)
     FilesNamedLikeRefs,
+    /// a submodule (gitlink committed in HEAD's tree, nested repository checked out at exactly
+    /// that commit) whose only change is a modified tracked file inside its own work tree:
+    /// `git status --porcelain` answers ` M submod`; nothing else in the superproject is touched
+    SubmoduleContent,
     // the following must leave the tree clean
     IgnoredOnly,
     UntrackedInIgnoredDir,
@@ -58,7 +62,7 @@ impl DirtyKind {
             DirtyKind::IgnoredOnly | DirtyKind::UntrackedInIgnoredDir | DirtyKind::EmptyDir | DirtyKind::TouchOnly
         )
     }
-    pub const ALL: [DirtyKind; 17] = [
+    pub const ALL: [DirtyKind; 18] = [
         DirtyKind::Untracked,
         DirtyKind::UntrackedInSubdir,
         DirtyKind::Modified,
@@ -72,6 +76,7 @@ impl DirtyKind {
         DirtyKind::ManyUntracked,
         DirtyKind::StagedDelete,
         DirtyKind::FilesNamedLikeRefs,
+        DirtyKind::SubmoduleContent,
         DirtyKind::IgnoredOnly,
         DirtyKind::UntrackedInIgnoredDir,
         DirtyKind::EmptyDir,
@@ -315,6 +320,13 @@ impl World {
     }
 
     fn do_clean(&mut self) -> HResult<()> {
+        // a populated submodule is not touched by `reset --hard` / `clean`: remove the nested
+        // repository; `reset --hard` then leaves the empty directory of an unpopulated gitlink,
+        // which is clean and which a checkout of a commit without the gitlink removes again
+        let sub = self.dir.join("submod");
+        if sub.join(".git").exists() {
+            std::fs::remove_dir_all(&sub).map_err(|e| HarnessError(format!("remove nested repository: {e}")))?;
+        }
         if self.head_commit().is_some() {
             self.git_ok(&["reset", "-q", "--hard"], None, None)?;
         }
@@ -699,6 +711,34 @@ impl World {
                         if made == 0 {
                             return Ok("skip: no ref name usable as a file name".into());
                         }
+                    }
+                    DirtyKind::SubmoduleContent => {
+                        // everything else is cleaned first: the gitlink commit must not pick up staged dirt
+                        self.auto_clean()?;
+                        let h = self.head_commit().unwrap();
+                        self.git_ok(&["init", "-q", "submod"], None, None)?;
+                        io(std::fs::write(d.join("submod/f.txt"), "f\n"))?;
+                        self.git_ok(&["-C", "submod", "add", "f.txt"], None, None)?;
+                        let st = self.git_ok(&["-C", "submod", "write-tree"], None, None)?;
+                        let sc = self.git_ok(
+                            &["-C", "submod", "commit-tree", &st, "-m", "s0"],
+                            Some((1_000_000_000, 1_000_000_000, "+0000")),
+                            None,
+                        )?;
+                        self.git_ok(&["-C", "submod", "update-ref", "HEAD", &sc], None, None)?;
+                        let has_link = self
+                            .git_ok(&["ls-tree", &self.commits[h].hash.clone(), "submod"], None, None)?
+                            .starts_with("160000");
+                        if !has_link {
+                            let ci = format!("160000,{sc},submod");
+                            self.git_ok(&["update-index", "--add", "--cacheinfo", &ci], None, None)?;
+                            let tree = self.git_ok(&["write-tree"], None, None)?;
+                            let (ct, tz) = self.tick(0, 1);
+                            let msg = format!("c{} adds a submodule", self.commits.len());
+                            self.new_commit(vec![h], ct, ct, &tz, &tree, &msg)?;
+                        }
+                        // the only change anywhere: a tracked file inside the submodule's work tree
+                        io(std::fs::write(d.join("submod/f.txt"), "f\nchanged inside the submodule\n"))?;
                     }
                     DirtyKind::IgnoredOnly => io(std::fs::write(d.join("artifact.ign"), "i\n"))?,
                     DirtyKind::UntrackedInIgnoredDir => {
